@@ -51,6 +51,7 @@ type vfC12Case struct {
 // a target parses data; it returns whether the input got past the first validation stage
 type vfC12Target struct {
 	varints func(w *vfC12World, seed []byte) []int // offsets of length varints in a valid seed
+	fields  [][2]int                               // {offset, width} of little-endian integer header fields of the format
 	name  string
 	seeds func(w *vfC12World) [][]byte
 	run   func(w *vfC12World, data []byte) (deep bool)
@@ -360,13 +361,16 @@ var vfC12Targets = []vfC12Target{
 		r.Has(w.sample)
 		return true
 	}},
-	{name: "blocktimeindex", seeds: vfFileSeed("blocktime"), run: func(w *vfC12World, d []byte) bool {
+	{name: "blocktimeindex", seeds: vfFileSeed("blocktime"), fields: [][2]int{{14, 8}, {22, 8}, {30, 8}, {38, 8}}, run: func(w *vfC12World, d []byte) bool {
 		idx, err := blocktimeindex.FromBytes(d)
 		if err != nil {
 			return false
 		}
-		idx.Get(w.ep.Blocks[0].Slot)
-		idx.Epoch()
+		// what the server asks of a loaded index: any slot of the epoch it says it covers
+		first := idx.Epoch() * cargen.SlotsPerEpoch
+		for _, s := range []uint64{w.ep.Blocks[0].Slot, w.ep.Blocks[len(w.ep.Blocks)-1].Slot, first, first + 1, first + cargen.SlotsPerEpoch/2, first + cargen.SlotsPerEpoch - 2, first + cargen.SlotsPerEpoch - 1} {
+			idx.Get(s)
+		}
 		return true
 	}},
 	{name: "linkedlog", seeds: vfFileSeed("linkedlog"), varints: func(w *vfC12World, seed []byte) []int { return []int{0} }, run: func(w *vfC12World, d []byte) bool {
@@ -502,7 +506,7 @@ var vfCborHeadBytes = []byte{0x00, 0x17, 0x18, 0x19, 0x1a, 0x1b, 0x20, 0x3b, 0x4
 // vfC12mutate derives a hostile input from a valid seed.
 func vfC12mutate(t *rapid.T, tg *vfC12Target, seed []byte) ([]byte, string) {
 	d := append([]byte{}, seed...)
-	how := rapid.SampledFrom([]string{"field", "field", "field2", "truncate", "cbor-head", "cbor-head", "flip", "random", "extend", "empty-or-tiny", "valid", "varint", "cbor-int", "cbor-len"}).Draw(t, "how")
+	how := rapid.SampledFrom([]string{"field", "field", "field2", "truncate", "cbor-head", "cbor-head", "flip", "random", "extend", "empty-or-tiny", "valid", "varint", "cbor-int", "cbor-len", "nudge", "nudge"}).Draw(t, "how")
 	if !tg.cbor && (how == "cbor-int" || how == "cbor-len") {
 		how = "field"
 	}
@@ -614,6 +618,54 @@ func vfC12mutate(t *rapid.T, tg *vfC12Target, seed []byte) ([]byte, string) {
 			}
 			enc := binary.AppendUvarint(nil, v)
 			d = append(append(append([]byte{}, d[:off]...), enc...), d[min(len(d), off+n):]...)
+		}
+	case "nudge":
+		// an integer of the input (a known header field of the format, or any aligned position) moved by a small
+		// amount or scaled: the off-by-one neighbours of a valid value
+		if len(d) > 0 {
+			p, width := 0, 8
+			if len(tg.fields) > 0 && rapid.IntRange(0, 3).Draw(t, "nudgeKnown") > 0 {
+				f := tg.fields[rapid.IntRange(0, len(tg.fields)-1).Draw(t, "nudgeField")]
+				p, width = f[0], f[1]
+			} else {
+				width = rapid.SampledFrom([]int{1, 2, 4, 8}).Draw(t, "nudgeWidth")
+				p = pos("nudge")
+				if rapid.Bool().Draw(t, "nudgeAlign") {
+					p -= p % width
+				}
+			}
+			if p+width <= len(d) {
+				be := len(tg.fields) == 0 && rapid.IntRange(0, 3).Draw(t, "nudgeBE") == 0
+				var v uint64
+				for i := 0; i < width; i++ {
+					if be {
+						v = v<<8 | uint64(d[p+i])
+					} else {
+						v |= uint64(d[p+i]) << (8 * i)
+					}
+				}
+				switch rapid.IntRange(0, 7).Draw(t, "nudgeOp") {
+				case 0, 1:
+					v--
+				case 2, 3:
+					v++
+				case 4:
+					v -= 2
+				case 5:
+					v += 2
+				case 6:
+					v *= 2
+				case 7:
+					v /= 2
+				}
+				for i := 0; i < width; i++ {
+					if be {
+						d[p+i] = byte(v >> (8 * (width - 1 - i)))
+					} else {
+						d[p+i] = byte(v >> (8 * i))
+					}
+				}
+			}
 		}
 	case "field":
 		setField("f")
